@@ -14,15 +14,16 @@ static const int sh_nthreads[] = { 1, 2, 2, 3, 3, 3 };
 /* parent of thread i (-1 = main) per shape */
 static const int sh_parent[SH_N][3] = { {-1,-1,-1}, {-1,0,-1}, {-1,-1,-1}, {-1,0,1}, {-1,-1,-1}, {-1,-1,0} };
 
-typedef struct { int shape, var[3], rev, yield_before_join, exit_style[3]; int W, K; } prog_t;
+typedef struct { int shape, var[3], rev, yield_before_join, exit_style[3]; int W, K; int leaf_yield; } prog_t;
 #define MAXP 2000
 static prog_t P[2][MAXP]; static int NP[2];
 
+static int g_leaf_yield;   /* programs added while this is set: a thread without children yields once, so that its parent can be found blocked in its own join */
 static void add(int tier, int shape, int v0, int v1, int v2, int rev, int yb, int e0, int e1, int e2, int W, int K) {
   if (NP[tier] >= MAXP) return;
   prog_t * p = &P[tier][NP[tier]++];
   p->shape = shape; p->var[0] = v0; p->var[1] = v1; p->var[2] = v2; p->rev = rev; p->yield_before_join = yb;
-  p->exit_style[0] = e0; p->exit_style[1] = e1; p->exit_style[2] = e2; p->W = W; p->K = K;
+  p->exit_style[0] = e0; p->exit_style[1] = e1; p->exit_style[2] = e2; p->W = W; p->K = K; p->leaf_yield = g_leaf_yield;
 }
 
 static void build(void) {
@@ -43,6 +44,15 @@ static void build(void) {
       add(tier, sh, v, v1, 0, rev, rev, 1, 0, 0, 2, 2);
       if (tier) { add(tier, sh, v, v1, 0, rev, 1, 0, 0, 0, 1, K); add(tier, sh, v, v, 0, rev, 0, 1, 1, 0, 3, 2); add(tier, sh, v1, v, 0, rev, 0, 0, 0, 0, 2, K); }
     }
+    /* a joiner that is itself joined while it is blocked: chains whose last thread yields, so that on one worker the thread in the middle is
+       suspended in its join when the thread above it joins it; every variant for the middle thread, both creation orders above it */
+    g_leaf_yield = 1;
+    for (int v = 0; v < V_N; v++) for (int W = 1; W <= 2; W++) {
+      add(tier, SH_CHAIN2, v, (v + 3) % V_N, 0, 0, 0, 0, 0, 0, W, W == 1 ? K : 2);
+      if (v % 3 == 0 || tier) add(tier, SH_CHAIN3, v, v, (v + 1) % V_N, 0, W == 1, 0, 1, 0, W, tier ? 2 : 1);
+      if (v % 3 == 1 || tier) add(tier, SH_FAN2, v, (v + 2) % V_N, 0, 1, 1, 0, 0, 0, W, tier ? 2 : 1);
+    }
+    g_leaf_yield = 0;
     /* three threads: one representative assignment per variant rotation */
     for (int sh = SH_CHAIN3; sh <= SH_MIXED3; sh++) for (int v = 0; v < V_N; v += (tier ? 1 : 3)) {
       add(tier, sh, v, (v + 1) % V_N, (v + 4) % V_N, v & 1, 0, 0, v & 1, 1, 2, tier ? 2 : 1);
@@ -57,7 +67,7 @@ static void describe(int tier, int prog, char * b, size_t n) {
   build(); prog_t * p = &P[tier][prog];
   int o = snprintf(b, n, "%s", sh_name[p->shape]);
   for (int i = 0; i < sh_nthreads[p->shape]; i++) o += snprintf(b + o, n - o, " t%d=%s/%s", i, v_name[p->var[i]], p->exit_style[i] ? "exit" : "return");
-  snprintf(b + o, n - o, " join=%s%s", p->rev ? "reverse" : "inorder", p->yield_before_join ? " yield-before-join" : "");
+  snprintf(b + o, n - o, " join=%s%s", p->rev ? "reverse" : "inorder", p->yield_before_join ? " yield-before-join" : ""); o = strlen(b); if (p->leaf_yield) snprintf(b + o, n - o, " leaves-yield");
 }
 
 /* ---- the program under test */
@@ -112,6 +122,7 @@ static void * body(void * a) {
   invoked[i]++;
   body_worker[i] = mv_worker();
   for (int k = 0; k < 64; k++) buf[i][k] = (unsigned char)(i * 64 + k + 1);
+  if (cur->leaf_yield) { int leaf = 1; for (int k = 0; k < sh_nthreads[cur->shape]; k++) if (sh_parent[cur->shape][k] == i) leaf = 0; if (leaf) myth_yield(); }
   children_of(i);
   done[i] = 1;
   if (cur->var[i] == V_EX_NULLID) { mv_point(&flag_nullid[i], sizeof(int)); flag_nullid[i] = 1; }
